@@ -51,6 +51,14 @@ CLAIMED = {
         technique="MIR expression-tree normalisation and pattern matching (formula identity) for the funding formulas, guard facts for the schedule, stored-value flow for the charge/checkpoint pairing",
         note="Decided: R11.1 SettleFunding success paths establish now >= next_funding_time; R11.2 premium fraction tree (twap_vamm - twap_oracle)*period/86400 behind the emitted attribute and the funding rate, next funding time max(aligned, now+buffer), buffer = period/2 only at instantiate; R11.3 one append per reply path, cumulative = last + new, payment = tps*fraction/decimals, sign table (negative -> insurance Withdraw(|p|), positive -> transfer to insurance fund, zero -> nothing); R11.4 margin and checkpoint come from the same remain-margin result at every position store or are both untouched/reset. Not decided: TWAP values (C18), numeric exactness beyond formula identity, the cap min(balance, p) arithmetic.",
         design="4/C11"),
+    "C04": dict(
+        technique="MIR guard facts, expression-tree pattern matching of the payout and margin-delta formulas, sibling agreement close/liquidation, &mut State effect tracking for the prepaid-bad-debt accounting",
+        note="Decided: R04.1 close/partial-close replies succeed only with bad_debt==0 of their remain-margin result; R04.2 close reply removes the position; R04.3 margin_delta = output - open_notional (long) / reverse (short), payout = |remain_margin.margin + tmp.unrealized_pnl| to tmp.trader, whole-close record carries unrealized_pnl=0 and open_notional=position.notional; R04.4 liquidation uses the same margin_delta table; R04.5 an insurance Withdraw for a shortfall is added to prepaid_bad_debt with the same operand and mutated State is stored; R04.6 funding charged once (margin/checkpoint pairing). Not decided: numeric exactness beyond formula identity; balances.",
+        design="4/C04"),
+    "C12": dict(
+        technique="MIR path census of fee-transfer invocations per chain step keyed by the fees_paid / zero-base conditions, constant propagation of the flag through the in-flight record, operand-origin and formula matching for fee base, routing and CalcFee",
+        note="Decided: R12.1 fee-transfer call counts per chain path (Open once across a reversal, Close once unless base zero, none for Liquidate/PayFunding/Deposit/Withdraw); R12.2 fees_paid false at every execute store, true before the chained increase, increase reply charges iff false; R12.3 fee base = margin*leverage/decimals captured before the reversal rewrites it, position.notional on whole close; R12.4 spread -> config.insurance_fund, toll -> config.fee_pool, payer = trader argument; R12.5 CalcFee trees. Not decided: rounding beyond the floor divisions in the trees.",
+        design="4/C12"),
 }
 
 NOT_BUILT = "rules designed in DESIGN.md section 4 but not built yet"
